@@ -1,7 +1,9 @@
 // C17 harness: tlx::LruCacheSet / LruCacheMap and tlx::SplayTree (set and multiset) behind the
 // line protocol (model side: lean/Driver/C17.lean).
 //
-//   cfg lruset | cfg lrumap | cfg splay <set|multi> <less|greater>
+//   cfg lruset [int|str|mk] | cfg lrumap [int|str|mk] | cfg splay <set|multi> <less|greater> [int|mk]
+//   (key/value types: int, std::string, MK = a struct whose moved-from objects are marked: hashing,
+//    comparing or copying one is reported)
 // LRU ops:   put k [v] | touch k | touchif k | erase k | eraseif k | get k | gettouch k | exists k
 //            | size | pop | clear
 //   answer = "<ret> ; l=<list_ from front (most recent) to back, k or k:v> ; m=<keys of map_, sorted,
@@ -52,11 +54,63 @@ struct ICont {
     virtual void finish() {}
 };
 
+// ------------------------------------------------------------------ key / value types
+static std::vector<std::string> g_move_errors;
+static constexpr long long BAD = -1000;   // id of a moved-from / corrupted object
+
+// move-sensitive key: a moved-from object is marked; hashing, comparing or copying it is an error
+struct MK {
+    int k;
+    bool live;
+    MK() : k(0), live(true) {}
+    explicit MK(int v) : k(v), live(true) {}
+    MK(const MK& o) : k(o.rd("copy of")), live(o.live) {}
+    MK(MK&& o) noexcept : k(o.rd("move of")), live(o.live) { o.k = 0x7EAD; o.live = false; }
+    MK& operator=(const MK& o) { if (this != &o) { k = o.rd("copy-assignment from"); live = o.live; } return *this; }
+    MK& operator=(MK&& o) noexcept {
+        if (this != &o) { k = o.rd("move-assignment from"); live = o.live; o.k = 0x7EAD; o.live = false; }
+        return *this;
+    }
+    int rd(const char* what) const {
+        if (!live && g_move_errors.size() < 4) g_move_errors.push_back(std::string(what) + " a moved-from key");
+        return k;
+    }
+    friend bool operator==(const MK& a, const MK& b) { return a.rd("comparison of") == b.rd("comparison of") && a.live == b.live; }
+};
+namespace std {
+template <> struct hash<MK> { size_t operator()(const MK& m) const { return std::hash<int>()(m.rd("hash of")); } };
+}  // namespace std
+
+template <typename T> struct Conv;
+template <> struct Conv<int> {
+    static int make(int k) { return k; }
+    static long long id(const int& k) { return k; }
+};
+template <> struct Conv<MK> {
+    static MK make(int k) { return MK(k); }
+    static long long id(const MK& m) { return m.live ? m.k : BAD; }
+};
+template <> struct Conv<std::string> {
+    // longer than the small-string buffer; a moved-from string is observably different
+    static std::string make(int k) { return "lru-or-splay-key-number-" + std::to_string(1000000 + k); }
+    static long long id(const std::string& s) {
+        if (s.size() != 31 || s.compare(0, 24, "lru-or-splay-key-number-") != 0) return BAD;
+        return std::atoll(s.c_str() + 24) - 1000000;
+    }
+};
+template <typename T>
+static std::string show_id(const T& x) { long long i = Conv<T>::id(x); return i == BAD ? std::string("!") : std::to_string(i); }
+
+static void drain_move_errors(const std::string& what, const std::string& line) {
+    for (auto& e : g_move_errors) vh::viol(what + " " + e + " after " + line);
+    g_move_errors.clear();
+}
+
 // ------------------------------------------------------------------ LRU
-template <bool IsMap>
+template <bool IsMap, typename K, typename V>
 struct Lru : ICont {
-    tlx::LruCacheSet<int> cs;
-    tlx::LruCacheMap<int, int> cm;
+    tlx::LruCacheSet<K> cs;
+    tlx::LruCacheMap<K, V> cm;
     std::vector<std::pair<int, int>> ref;   // front = most recently put/touched
 
     int ref_find(int k) const {
@@ -65,37 +119,60 @@ struct Lru : ICont {
     }
     void ref_front(int i) { auto e = ref[i]; ref.erase(ref.begin() + i); ref.insert(ref.begin(), e); }
 
+    bool map_dangling = false;
+
     std::string dump() {
         std::ostringstream os;
         os << "l=";
         bool first = true;
-        if (IsMap) for (auto& e : cm.list_) { if (!first) os << ','; first = false; os << e.first << ':' << e.second; }
-        else for (auto& e : cs.list_) { if (!first) os << ','; first = false; os << e; }
+        std::set<const void*> nodes;      // addresses of the live list elements
+        if (IsMap) for (auto& e : cm.list_) { nodes.insert(&e); if (!first) os << ','; first = false; os << show_id(e.first) << ':' << show_id(e.second); }
+        else for (auto& e : cs.list_) { nodes.insert(&e); if (!first) os << ','; first = false; os << show_id(e); }
         if (first) os << '-';
         os << " ; m=";
-        std::map<int, int> mm;
-        if (IsMap) for (auto& e : cm.map_) mm[e.first] = e.second->first;
-        else for (auto& e : cs.map_) mm[e.first] = *e.second;
+        // map_: key -> key of the list node its iterator designates; an iterator that does not designate a
+        // live list node is printed as `!` and never dereferenced
+        std::vector<std::pair<long long, std::string>> mm;
+        map_dangling = false;
+        if (IsMap) for (auto& e : cm.map_) {
+            const void* p = static_cast<const void*>(std::addressof(*e.second));
+            if (nodes.count(p)) mm.emplace_back(Conv<K>::id(e.first), show_id(e.second->first));
+            else { mm.emplace_back(Conv<K>::id(e.first), "!"); map_dangling = true; }
+        }
+        else for (auto& e : cs.map_) {
+            const void* p = static_cast<const void*>(std::addressof(*e.second));
+            if (nodes.count(p)) mm.emplace_back(Conv<K>::id(e.first), show_id(*e.second));
+            else { mm.emplace_back(Conv<K>::id(e.first), "!"); map_dangling = true; }
+        }
+        std::sort(mm.begin(), mm.end());
         first = true;
-        for (auto& e : mm) { if (!first) os << ','; first = false; os << e.first << '>' << e.second; }
+        for (auto& e : mm) { if (!first) os << ','; first = false; if (e.first == BAD) os << '!'; else os << e.first; os << '>' << e.second; }
         if (first) os << '-';
         return os.str();
     }
 
     void check(const std::string& line) {
+        drain_move_errors("lru", line);
+        if (map_dangling) { vh::viol("lru map_ holds an iterator to a list node that no longer exists after " + line); return; }
         size_t n = IsMap ? cm.size() : cs.size();
         if (n != ref.size()) vh::viol("lru size " + std::to_string(n) + " != reference " + std::to_string(ref.size()) + " after " + line);
         std::vector<std::pair<int, int>> got;
-        if (IsMap) for (auto& e : cm.list_) got.push_back(e);
-        else for (auto& e : cs.list_) got.emplace_back(e, 0);
-        if (got != ref) vh::viol("lru recency list differs from the reference LRU list after " + line);
+        bool moved = false;
+        if (IsMap) for (auto& e : cm.list_) { long long a = Conv<K>::id(e.first), b = Conv<V>::id(e.second); if (a == BAD || b == BAD) moved = true; got.emplace_back(static_cast<int>(a), static_cast<int>(b)); }
+        else for (auto& e : cs.list_) { long long a = Conv<K>::id(e); if (a == BAD) moved = true; got.emplace_back(static_cast<int>(a), 0); }
+        if (moved) vh::viol("lru stores a moved-from key or value after " + line);
+        else if (got != ref) vh::viol("lru recency list differs from the reference LRU list after " + line);
         for (int k = -1; k <= KU; ++k) {
-            bool e = IsMap ? cm.exists(k) : cs.exists(k);
+            bool e = IsMap ? cm.exists(Conv<K>::make(k)) : cs.exists(Conv<K>::make(k));
             if (e != (ref_find(k) >= 0)) { vh::viol("lru exists(" + std::to_string(k) + ") wrong after " + line); break; }
         }
+        drain_move_errors("lru", line);
     }
 
     void op(const std::vector<std::string>& t, const std::string& line) override {
+        // after a dangling map_ iterator has been reported, every further operation of the case would
+        // read freed memory inside tlx: the verdict is out, the rest of the case is not executed
+        if (map_dangling) { vh::answer("not-executed (container corrupted)"); return; }
         const std::string& o = t[0];
         std::string ret = "ok";
         int k = t.size() > 1 ? std::stoi(t[1]) : 0;
@@ -106,60 +183,62 @@ struct Lru : ICont {
         if (o == "pop" && ref.empty()) { vh::answer("bad-op"); return; }    // documented: assert(size())
         int ri = need_key ? ref_find(k) : -1;
         bool threw = false, expect_throw = false;
+        K key = Conv<K>::make(k);
         try {
             if (o == "put") {
-                if (IsMap) cm.put(k, v); else cs.put(k);
+                if (IsMap) cm.put(key, Conv<V>::make(v)); else cs.put(key);
                 if (ri >= 0) ref.erase(ref.begin() + ri);
                 ref.insert(ref.begin(), std::make_pair(k, IsMap ? v : 0));
             }
             else if (o == "touch") {
                 expect_throw = ri < 0;
-                if (IsMap) cm.touch(k); else cs.touch(k);
+                if (IsMap) cm.touch(key); else cs.touch(key);
                 if (ri >= 0) ref_front(ri);
             }
             else if (o == "touchif") {
-                bool r = IsMap ? cm.touch_if_exists(k) : cs.touch_if_exists(k);
+                bool r = IsMap ? cm.touch_if_exists(key) : cs.touch_if_exists(key);
                 ret = r ? "1" : "0";
                 if (r != (ri >= 0)) vh::viol("lru touch_if_exists result wrong after " + line);
                 if (ri >= 0) ref_front(ri);
             }
             else if (o == "erase") {
                 expect_throw = ri < 0;
-                if (IsMap) cm.erase(k); else cs.erase(k);
+                if (IsMap) cm.erase(key); else cs.erase(key);
                 if (ri >= 0) ref.erase(ref.begin() + ri);
             }
             else if (o == "eraseif") {
-                bool r = IsMap ? cm.erase_if_exists(k) : cs.erase_if_exists(k);
+                bool r = IsMap ? cm.erase_if_exists(key) : cs.erase_if_exists(key);
                 ret = r ? "1" : "0";
                 if (r != (ri >= 0)) vh::viol("lru erase_if_exists result wrong after " + line);
                 if (ri >= 0) ref.erase(ref.begin() + ri);
             }
             else if (o == "get") {
                 expect_throw = ri < 0;
-                int r = cm.get(k);
-                ret = std::to_string(r);
+                long long r = Conv<V>::id(cm.get(key));
+                ret = r == BAD ? std::string("!") : std::to_string(r);
                 if (ri >= 0 && r != ref[ri].second) vh::viol("lru get returned " + ret + " but the latest value is " + std::to_string(ref[ri].second) + " after " + line);
             }
             else if (o == "gettouch") {
                 expect_throw = ri < 0;
-                int r = cm.get_touch(k);
-                ret = std::to_string(r);
+                long long r = Conv<V>::id(cm.get_touch(key));
+                ret = r == BAD ? std::string("!") : std::to_string(r);
                 if (ri >= 0 && r != ref[ri].second) vh::viol("lru get_touch returned " + ret + " but the latest value is " + std::to_string(ref[ri].second) + " after " + line);
                 if (ri >= 0) ref_front(ri);
             }
-            else if (o == "exists") ret = (IsMap ? cm.exists(k) : cs.exists(k)) ? "1" : "0";
+            else if (o == "exists") ret = (IsMap ? cm.exists(key) : cs.exists(key)) ? "1" : "0";
             else if (o == "size") ret = std::to_string(IsMap ? cm.size() : cs.size());
             else if (o == "pop") {
                 std::pair<int, int> want = ref.back();
                 if (IsMap) {
                     auto r = cm.pop();
-                    ret = std::to_string(r.first) + ":" + std::to_string(r.second);
-                    if (r != want) vh::viol("lru pop returned " + ret + " but the least recently used entry is " + std::to_string(want.first) + ":" + std::to_string(want.second) + " after " + line);
+                    long long a = Conv<K>::id(r.first), b = Conv<V>::id(r.second);
+                    ret = show_id(r.first) + ":" + show_id(r.second);
+                    if (a != want.first || b != want.second) vh::viol("lru pop returned " + ret + " but the least recently used entry is " + std::to_string(want.first) + ":" + std::to_string(want.second) + " after " + line);
                 }
                 else {
-                    int r = cs.pop();
-                    ret = std::to_string(r);
-                    if (r != want.first) vh::viol("lru pop returned " + ret + " but the least recently used key is " + std::to_string(want.first) + " after " + line);
+                    K r = cs.pop();
+                    ret = show_id(r);
+                    if (Conv<K>::id(r) != want.first) vh::viol("lru pop returned " + ret + " but the least recently used key is " + std::to_string(want.first) + " after " + line);
                 }
                 ref.pop_back();
             }
@@ -209,9 +288,21 @@ struct LedgerAlloc {
     template <typename U2> bool operator!=(const LedgerAlloc<U2>&) const { return false; }
 };
 
-template <bool Dup, typename Cmp>
+// the tree's comparator on the key type K: compares the ids; a moved-from key is an error
+template <typename K, typename Cmp>
+struct KCmp {
+    Cmp c;
+    bool operator()(const K& a, const K& b) const {
+        long long ia = Conv<K>::id(a), ib = Conv<K>::id(b);
+        if (ia == BAD || ib == BAD) { if (g_move_errors.size() < 4) g_move_errors.push_back("comparison of a moved-from key"); return false; }
+        return c(static_cast<int>(ia), static_cast<int>(ib));
+    }
+};
+
+template <bool Dup, typename Cmp, typename K>
 struct Splay : ICont {
-    using T = tlx::SplayTree<int, Cmp, Dup, LedgerAlloc<int>>;
+    using T = tlx::SplayTree<K, KCmp<K, Cmp>, Dup, LedgerAlloc<K>>;
+    static int kid(const K& k) { return static_cast<int>(Conv<K>::id(k)); }
     using Node = typename T::Node;
     std::unique_ptr<T> tr{new T()};
     std::multiset<int, Cmp> ref;
@@ -224,21 +315,22 @@ struct Splay : ICont {
         ++count;
         os << '(';
         bool a = shape(n->left, os, count, depth + 1);
-        os << ' ' << n->key << ' ';
+        os << ' ' << show_id(n->key) << ' ';
         bool b = shape(n->right, os, count, depth + 1);
         os << ')';
         return a && b;
     }
     void inorder(const Node* n, std::vector<int>& out) {
         if (!n) return;
-        inorder(n->left, out); out.push_back(n->key); inorder(n->right, out);
+        inorder(n->left, out); out.push_back(kid(n->key)); inorder(n->right, out);
     }
     // search-tree check by bounds (non-strict for duplicates)
     bool bst(const Node* n, const int* lo, const int* hi) {
         if (!n) return true;
-        if (lo && (Dup ? cmp(n->key, *lo) : !cmp(*lo, n->key))) return false;
-        if (hi && (Dup ? cmp(*hi, n->key) : !cmp(n->key, *hi))) return false;
-        return bst(n->left, lo, &n->key) && bst(n->right, &n->key, hi);
+        const int kk = kid(n->key);
+        if (lo && (Dup ? cmp(kk, *lo) : !cmp(*lo, kk))) return false;
+        if (hi && (Dup ? cmp(*hi, kk) : !cmp(kk, *hi))) return false;
+        return bst(n->left, lo, &kk) && bst(n->right, &kk, hi);
     }
 
     std::string dump(bool& walk_ok, size_t& count) {
@@ -251,6 +343,7 @@ struct Splay : ICont {
 
     void check(const std::string& line, bool walk_ok, size_t count) {
         auto& L = NodeLedger::get();
+        drain_move_errors("splay", line);
         for (auto& e : L.errors) vh::viol("splay " + e + " after " + line);
         L.errors.clear();
         if (!walk_ok) { vh::viol("splay tree reaches a freed node (dangling pointer) after " + line); return; }
@@ -263,7 +356,7 @@ struct Splay : ICont {
         if (got != std::vector<int>(ref.begin(), ref.end())) vh::viol("splay in-order key sequence differs from the reference after " + line);
         if (!bst(tr->root_, nullptr, nullptr)) vh::viol("splay tree is not a valid search tree after " + line);
         std::vector<int> tv;
-        tr->traverse_preorder([&tv](const int& k) { tv.push_back(k); });
+        tr->traverse_preorder([&tv](const K& k) { tv.push_back(kid(k)); });
         if (tv != got) vh::viol("splay traverse_preorder differs from the node walk after " + line);
     }
 
@@ -274,35 +367,35 @@ struct Splay : ICont {
         bool need_key = (o == "insert" || o == "erase" || o == "exists" || o == "find");
         if (need_key && (t.size() < 2 || k < -1 || k > KU)) { vh::answer("bad-op"); return; }
         if (o == "insert") {
-            bool r = tr->insert(k);
+            bool r = tr->insert(Conv<K>::make(k));
             bool want = Dup || ref.count(k) == 0;
             ret = r ? "1" : "0";
             if (r != want) vh::viol("splay insert returned " + ret + " after " + line);
             if (want) ref.insert(k);
         }
         else if (o == "erase") {
-            bool r = tr->erase(k);
+            bool r = tr->erase(Conv<K>::make(k));
             auto it = ref.find(k);
             ret = r ? "1" : "0";
             if (r != (it != ref.end())) vh::viol("splay erase returned " + ret + " after " + line);
             if (it != ref.end()) ref.erase(it);
         }
         else if (o == "exists") {
-            bool r = tr->exists(k);
+            bool r = tr->exists(Conv<K>::make(k));
             ret = r ? "1" : "0";
             if (r != (ref.count(k) != 0)) vh::viol("splay exists returned " + ret + " after " + line);
         }
         else if (o == "find") {
-            Node* n = tr->find(k);
+            Node* n = tr->find(Conv<K>::make(k));
             if (!n) { ret = "null"; if (!ref.empty()) vh::viol("splay find returned null on a non-empty tree after " + line); }
             else {
-                ret = std::to_string(n->key);
+                ret = show_id(n->key);
                 if (ref.empty()) vh::viol("splay find returned a node of an empty tree after " + line);
-                else if (ref.count(k)) { if (n->key != k) vh::viol("splay find(" + std::to_string(k) + ") returned " + ret + " although the key is stored after " + line); }
+                else if (ref.count(k)) { if (kid(n->key) != k) vh::viol("splay find(" + std::to_string(k) + ") returned " + ret + " although the key is stored after " + line); }
                 else {
                     // a neighbour of k: the predecessor or the successor in the reference
                     auto ub = ref.upper_bound(k);
-                    bool ok = (ub != ref.end() && *ub == n->key) || (ub != ref.begin() && *std::prev(ub) == n->key);
+                    bool ok = (ub != ref.end() && *ub == kid(n->key)) || (ub != ref.begin() && *std::prev(ub) == kid(n->key));
                     if (!ok) vh::viol("splay find(" + std::to_string(k) + ") returned " + ret + " which is not a neighbour after " + line);
                 }
             }
@@ -312,7 +405,7 @@ struct Splay : ICont {
         else if (o == "clear") { tr->clear(); ref.clear(); }
         else if (o == "trav") {
             std::vector<int> tv;
-            tr->traverse_preorder([&tv](const int& kk) { tv.push_back(kk); });
+            tr->traverse_preorder([&tv](const K& kk) { tv.push_back(kid(kk)); });
             ret = "[" + (tv.empty() ? std::string() : vh::show_csv(tv)) + "]";
         }
         else if (o == "check") {
@@ -325,12 +418,13 @@ struct Splay : ICont {
             Node* r = tr->root_;
             Node* c = r->left ? r->left : r->right;
             if (!c || !NodeLedger::get().live.count(c)) { vh::answer("bad-op"); return; }
-            int saved = c->key;
+            int saved = kid(c->key);
+            const int rk = kid(r->key);
             // a left child strictly above the root / a right child strictly below it
-            c->key = (c == r->left) ? (cmp(0, 1) ? r->key + 100 : r->key - 100) : (cmp(0, 1) ? r->key - 100 : r->key + 100);
+            c->key = Conv<K>::make((c == r->left) ? (cmp(0, 1) ? rk + 100 : rk - 100) : (cmp(0, 1) ? rk - 100 : rk + 100));
             bool harness_says_valid = bst(tr->root_, nullptr, nullptr);
             bool chk = tr->check();
-            c->key = saved;
+            c->key = Conv<K>::make(saved);
             ret = chk ? "1" : "0";
             if (harness_says_valid) vh::viol("harness: corrupted tree still valid?! after " + line);
             else if (chk) vh::viol("splay check() answers true on a tree that is not a search tree after " + line);
@@ -354,14 +448,30 @@ struct Splay : ICont {
     }
 };
 
+template <typename K>
+static ICont* make_splay(bool multi, const std::string& c) {
+    if (c == "less") return multi ? static_cast<ICont*>(new Splay<true, std::less<int>, K>()) : new Splay<false, std::less<int>, K>();
+    if (c == "greater") return multi ? static_cast<ICont*>(new Splay<true, std::greater<int>, K>()) : new Splay<false, std::greater<int>, K>();
+    return nullptr;
+}
+
 static ICont* configure(const std::vector<std::string>& t) {
-    if (t.size() == 2 && t[1] == "lruset") return new Lru<false>();
-    if (t.size() == 2 && t[1] == "lrumap") return new Lru<true>();
-    if (t.size() == 4 && t[1] == "splay") {
+    // key types: int (default), std::string (str), the move-sensitive struct MK (mk)
+    if ((t.size() == 2 || t.size() == 3) && (t[1] == "lruset" || t[1] == "lrumap")) {
+        std::string kt = t.size() == 3 ? t[2] : "int";
+        bool m = t[1] == "lrumap";
+        if (kt == "int") return m ? static_cast<ICont*>(new Lru<true, int, int>()) : new Lru<false, int, int>();
+        if (kt == "str") return m ? static_cast<ICont*>(new Lru<true, std::string, std::string>()) : new Lru<false, std::string, std::string>();
+        if (kt == "mk") return m ? static_cast<ICont*>(new Lru<true, MK, MK>()) : new Lru<false, MK, MK>();
+        return nullptr;
+    }
+    if ((t.size() == 4 || t.size() == 5) && t[1] == "splay") {
         bool multi = t[2] == "multi";
         if (!multi && t[2] != "set") return nullptr;
-        if (t[3] == "less") return multi ? static_cast<ICont*>(new Splay<true, std::less<int>>()) : new Splay<false, std::less<int>>();
-        if (t[3] == "greater") return multi ? static_cast<ICont*>(new Splay<true, std::greater<int>>()) : new Splay<false, std::greater<int>>();
+        std::string kt = t.size() == 5 ? t[4] : "int";
+        if (kt == "int") return make_splay<int>(multi, t[3]);
+        if (kt == "mk") return make_splay<MK>(multi, t[3]);
+        return nullptr;
     }
     return nullptr;
 }
@@ -391,7 +501,7 @@ int main() {
         auto t = vh::tokens(line);
         if (t.empty()) { vh::answer(""); continue; }
         if (t[0][0] == '#') { vh::answer(line); continue; }
-        if (t[0] == "case") { close(); vh::answer("case"); continue; }
+        if (t[0] == "case") { close(); g_move_errors.clear(); vh::answer("case"); continue; }
         if (t[0] == "cfg") { close(); cur.reset(configure(t)); vh::answer(cur ? "ok" : "bad-op"); continue; }
         if (!cur) { vh::answer("bad-op"); continue; }
         cur->op(t, line);
